@@ -276,11 +276,61 @@ func ruleStructDescriptor(c *Ctx) {
 		if ef != nil {
 			einfo := ef.Pkg.TypesInfo
 			erecv := recvObj(einfo, ef.Decl)
+			// c.fields, or a local assigned from it exactly once
+			locals := map[types.Object]int{}
+			isFields := func(e ast.Expr) bool {
+				if sel, isSel := ast.Unparen(e).(*ast.SelectorExpr); isSel && sel.Sel.Name == "fields" {
+					if id, isID := sel.X.(*ast.Ident); isID && einfo.Uses[id] == erecv {
+						return true
+					}
+				}
+				return false
+			}
 			ast.Inspect(ef.Decl.Body, func(n ast.Node) bool {
-				if r, isR := n.(*ast.RangeStmt); isR {
-					if sel, isSel := r.X.(*ast.SelectorExpr); isSel && sel.Sel.Name == "fields" {
-						if id, isID := sel.X.(*ast.Ident); isID && einfo.Uses[id] == erecv {
-							ok = true
+				if as, isA := n.(*ast.AssignStmt); isA {
+					for i, l := range as.Lhs {
+						if id, isID := l.(*ast.Ident); isID {
+							obj := einfo.Defs[id]
+							if obj == nil {
+								obj = einfo.Uses[id]
+							}
+							if obj == nil {
+								continue
+							}
+							if len(as.Lhs) == len(as.Rhs) && isFields(as.Rhs[i]) && locals[obj] == 0 {
+								locals[obj] = 1
+							} else {
+								locals[obj] = 2
+							}
+						}
+					}
+				}
+				return true
+			})
+			src := func(e ast.Expr) bool {
+				if isFields(e) {
+					return true
+				}
+				if id, isID := ast.Unparen(e).(*ast.Ident); isID {
+					return locals[einfo.Uses[id]] == 1
+				}
+				return false
+			}
+			ast.Inspect(ef.Decl.Body, func(n ast.Node) bool {
+				switch r := n.(type) {
+				case *ast.RangeStmt:
+					if src(r.X) {
+						ok = true
+					}
+				case *ast.ForStmt:
+					// for i := 0; i < len(c.fields); i++
+					if be, isB := r.Cond.(*ast.BinaryExpr); isB && be.Op == token.LSS {
+						if call, isC := be.Y.(*ast.CallExpr); isC && len(call.Args) == 1 {
+							if id, isID := call.Fun.(*ast.Ident); isID && id.Name == "len" && src(call.Args[0]) {
+								if inc, isI := r.Post.(*ast.IncDecStmt); isI && inc.Tok == token.INC {
+									ok = true
+								}
+							}
 						}
 					}
 				}
